@@ -152,6 +152,16 @@ def generate(seed, tier="quick"):
         if f["sites"]["sb"]["op"] == "item":
             e["key"], e["cop"] = ["str", "k"], "eq"
         f["tests"].append({"name": "test_subclass", "events": [e]})
+    crng = sub(seed, "crlf")
+    if crng.random() < 0.1:
+        # a project with windows line ends and a multi-line string among the values: one more formatter state is a format-command that writes CRLF
+        for f in prog["files"]:
+            f["header"] = dict(f.get("header") or {}, eol="crlf")
+            f["header"].pop("tabs", None)
+        f = prog["files"][0]
+        f["sites"]["ml"] = {"op": crng.choice(["eq", "eq", "in"]), "place": "direct", "arg": None, "prev": None}
+        f["tests"].append({"name": "test_multiline", "events": [{"t": "cmp", "eid": "eml", "site": "ml", "style": "rec",
+                                                                "vals": [crng.choice([["str", "first\nsecond\nthird"], ["dict", [[["str", "k"], ["str", "a\n\nb\n"]], [["str", "s"], ["set", [["str", "x"], ["str", "y"]]]]]]])]}]})
     driver = "plugin" if sub(seed, "driver").random() < 0.12 else "inline"
     irng = sub(seed, "imports")
     if driver == "plugin" and irng.random() < 0.7:
@@ -235,7 +245,11 @@ def execute(case, ctx):
                 break
     # ---- across formatter states (hash seed 0): same syntax tree and same value of every argument
     base_map = None
-    for fmt in FMTS:
+    fmts = list(FMTS)
+    if any((f.get("header") or {}).get("eol") == "crlf" for f in prog["files"]):
+        fmts.append({"kind": "cmd", "stub": "black-crlf", "mode": {"line_length": 60}})
+        ctx.count("probe_crlf_project_with_crlf_writing_format_command")
+    for fmt in fmts:
         f = dict(base)
         if driver == "plugin":
             f["pyproject.toml"] = sim.pyproject_for(fmt)
@@ -281,7 +295,7 @@ def execute(case, ctx):
             for sid, s in f2["sites"].items():
                 c = cur.get((f2["name"], sid))
                 if c is not None:
-                    s["arg"] = c.region_text.rstrip(", \n") or None if c.arg_text is not None else None
+                    s["arg"] = c.region_text.replace("\r\n", "\n").rstrip(", \n") or None if c.arg_text is not None else None  # (the renderer adds the file's line ends again)
             for t in f2["tests"]:
                 for e in t["events"]:
                     for v in e.get("vals", []):
@@ -300,7 +314,7 @@ def execute(case, ctx):
             if r["completed"] and not r.get("raises"):
                 ctx.count("probe_reordered_construction")
                 for k in tests:
-                    if r["files"].get(k) != files2[k]:
+                    if (r["files"].get(k) or "").replace("\r\n", "\n") != files2[k].replace("\r\n", "\n"):  # (line ends are C03's business; the server hands files back as text)
                         viol("construction-order-independence", "equal-value-built-in-another-order-rewrites-the-snapshot",
                              f"{k}: the same values with dicts / sets built in another insertion order made a session with fix approved rewrite the file\n--- before\n{files2[k][:800]}\n--- after\n{r['files'][k][:800]}")
                         break
